@@ -29,7 +29,7 @@ pub struct ParallelHeapIter<'a> {
     stack: Vec<(HeapCellValue, HeapCellValue)>,
     heap: &'a Heap,
     arena: &'a Arena,
-    tabu_list: IndexSet<(usize, usize), FxBuildHasher>,
+    tabu_list: IndexSet<(u64, u64), FxBuildHasher>,
 }
 
 impl<'a> ParallelHeapIter<'a> {
@@ -41,6 +41,17 @@ impl<'a> ParallelHeapIter<'a> {
             tabu_list: IndexSet::with_hasher(FxBuildHasher::new()),
         }
     }
+}
+
+// The key of a visited pair of compound cells is the pair of (tag, value) of both cells: the
+// value of a PStrLoc cell is a byte offset while Lis and Str values are cell indices, so the bare
+// values of unrelated pairs can coincide. Values are 56 bits wide, the tag goes above them.
+#[inline]
+fn tabu_key(v1: HeapCellValue, v2: HeapCellValue) -> (u64, u64) {
+    (
+        ((v1.get_tag() as u64) << 56) | v1.get_value(),
+        ((v2.get_tag() as u64) << 56) | v2.get_value(),
+    )
 }
 
 #[derive(Debug)]
@@ -166,15 +177,17 @@ impl Iterator for ParallelHeapIter<'_> {
                     )
                 }
                 Some(TermOrderCategory::Compound) => {
+                    let key = tabu_key(v1, v2);
+
                     read_heap_cell!(v1,
                         (HeapCellValueTag::Lis, l1) => {
                             read_heap_cell!(v2,
                                 (HeapCellValueTag::PStrLoc, l2) => {
-                                    if self.tabu_list.contains(&(l1, l2)) {
+                                    if self.tabu_list.contains(&key) {
                                         continue;
                                     }
 
-                                    self.tabu_list.insert((l1, l2));
+                                    self.tabu_list.insert(key);
 
                                     // like the action of partial_string_to_stack here but the
                                     // ordering of stack pushes is (crucially for comparison
@@ -185,17 +198,17 @@ impl Iterator for ParallelHeapIter<'_> {
                                     self.stack.push((heap_loc_as_cell!(l1), char_as_cell!(c)));
                                 }
                                 (HeapCellValueTag::Lis, l2) => {
-                                    if self.tabu_list.contains(&(l1, l2)) {
+                                    if self.tabu_list.contains(&key) {
                                         continue;
                                     }
 
-                                    self.tabu_list.insert((l1, l2));
+                                    self.tabu_list.insert(key);
 
                                     self.stack.push((self.heap[l1 + 1], self.heap[l2 + 1]));
                                     self.stack.push((self.heap[l1], self.heap[l2]));
                                 }
                                 (HeapCellValueTag::Str, s2) => {
-                                    if self.tabu_list.contains(&(l1, s2)) {
+                                    if self.tabu_list.contains(&key) {
                                         continue;
                                     }
 
@@ -204,7 +217,7 @@ impl Iterator for ParallelHeapIter<'_> {
 
                                     some_or_return!(self.parallel_cmp((2, atom!(".")), (a2, n2), v1, v2));
 
-                                    self.tabu_list.insert((l1, s2));
+                                    self.tabu_list.insert(key);
 
                                     self.stack.push((self.heap[l1 + 1], self.heap[s2 + 2]));
                                     self.stack.push((self.heap[l1], self.heap[s2 + 1]));
@@ -217,13 +230,13 @@ impl Iterator for ParallelHeapIter<'_> {
                         (HeapCellValueTag::PStrLoc, l1) => {
                             read_heap_cell!(v2,
                                 (HeapCellValueTag::PStrLoc, l2) => {
-                                    if self.tabu_list.contains(&(l1, l2)) {
+                                    if self.tabu_list.contains(&key) {
                                         continue;
                                     }
 
                                     match self.heap.compare_pstr_segments(l1, l2) {
                                         PStrSegmentCmpResult::Continue(v1, v2) => {
-                                            self.tabu_list.insert((l1, l2));
+                                            self.tabu_list.insert(key);
 
                                             self.stack.push((v1.offset_by(l1), v2.offset_by(l2)));
                                         }
@@ -238,11 +251,11 @@ impl Iterator for ParallelHeapIter<'_> {
                                     }
                                 }
                                 (HeapCellValueTag::Lis, l2) => {
-                                    if self.tabu_list.contains(&(l1, l2)) {
+                                    if self.tabu_list.contains(&key) {
                                         continue;
                                     }
 
-                                    self.tabu_list.insert((l1, l2));
+                                    self.tabu_list.insert(key);
 
                                     let (c, succ_cell) = self.heap.last_str_char_and_tail(l1);
 
@@ -250,11 +263,11 @@ impl Iterator for ParallelHeapIter<'_> {
                                     self.stack.push((char_as_cell!(c), heap_loc_as_cell!(l2)));
                                 }
                                 (HeapCellValueTag::Str, s2) => {
-                                    if self.tabu_list.contains(&(l1, s2)) {
+                                    if self.tabu_list.contains(&key) {
                                         continue;
                                     }
 
-                                    self.tabu_list.insert((l1, s2));
+                                    self.tabu_list.insert(key);
 
                                     let (n2, a2) = cell_as_atom_cell!(self.heap[s2])
                                         .get_name_and_arity();
@@ -274,7 +287,7 @@ impl Iterator for ParallelHeapIter<'_> {
                         (HeapCellValueTag::Str, s1) => {
                             read_heap_cell!(v2,
                                 (HeapCellValueTag::Str, s2) => {
-                                    if self.tabu_list.contains(&(s1, s2)) {
+                                    if self.tabu_list.contains(&key) {
                                         continue;
                                     }
 
@@ -286,14 +299,14 @@ impl Iterator for ParallelHeapIter<'_> {
 
                                     some_or_return!(self.parallel_cmp((a1, n1), (a2, n2), v1, v2));
 
-                                    self.tabu_list.insert((s1, s2));
+                                    self.tabu_list.insert(key);
 
                                     for idx in (1 .. a1+1).rev() {
                                         self.stack.push((self.heap[s1+idx], self.heap[s2+idx]));
                                     }
                                 }
                                 (HeapCellValueTag::Lis, l2) => {
-                                    if self.tabu_list.contains(&(s1, l2)) {
+                                    if self.tabu_list.contains(&key) {
                                         continue;
                                     }
 
@@ -309,7 +322,7 @@ impl Iterator for ParallelHeapIter<'_> {
                                     self.stack.push((self.heap[s1+1], self.heap[l2]));
                                 }
                                 (HeapCellValueTag::PStrLoc, l2) => {
-                                    if self.tabu_list.contains(&(s1, l2)) {
+                                    if self.tabu_list.contains(&key) {
                                         continue;
                                     }
 
@@ -318,7 +331,7 @@ impl Iterator for ParallelHeapIter<'_> {
 
                                     some_or_return!(self.parallel_cmp((a1, n1), (2, atom!(".")), v1, v2));
 
-                                    self.tabu_list.insert((s1, l2));
+                                    self.tabu_list.insert(key);
 
                                     let (c, succ_cell) = self.heap.last_str_char_and_tail(l2);
 
